@@ -43,6 +43,28 @@ def accepted_at_equality(cond, pol, fft_shape_atoms):
     return not raises
 
 
+class _Transform:
+    """the centred FFT of a path: through propagate._fft2, or written in place as fftshift(fft2(ifftshift(x)))"""
+    def __init__(self, x, result, pos):
+        self.x, self.result, self.pos = x, result, pos
+
+
+def transforms(p):
+    out = []
+    for i, e in enumerate(p.events):
+        if e.kind != 'call':
+            continue
+        if e.data.get('callee') == 'propagate._fft2':
+            out.append(_Transform(e.bound.get('x'), e.result, i))
+        elif e.depth == 0 and str(e.data.get('callee')) in ('ext:numpy.fft.fft2', 'ext:scipy.fft.fft2') and e.data.get('args'):
+            arg = e.data['args'][0]
+            aa = arg.single_atom() if isinstance(arg, Poly) else None
+            x = aa[2][0] if aa is not None and is_app(aa, ('fft.ifftshift', 'scipy.fft.ifftshift')) else arg
+            res = e.data.get('result')
+            out.append(_Transform(x, nf.app('fft.fftshift', res) if res is not None else None, i))
+    return out
+
+
 def _same_pair(v, base):
     """v is `base`, tuple(base) or (base[0], base[1])"""
     v = nf.strip_apps(v, ('copy', 'cast', 'tuple', 'list'))
@@ -372,15 +394,15 @@ def run(chk, repo, tier):
         det_st = 'no store-back; field.insert ' + ('writes' if ok_st else 'does not write') + ' its out argument in place'
     chk.ob('C09-d', 'N-region', f.key, 'the insert result lands in the same region (stored back there or accumulated in place)',
            ok_st, det_st, f.loc())
-    f2s = ps.calls('propagate._fft2')
+    f2s = transforms(ps)
     last_ins = max(i for i, e in enumerate(ps.events) if e in ins)
-    ok_t = len(f2s) == 1 and in_region(f2s[0].bound.get('x')) and ps.events.index(f2s[0]) > last_ins
+    ok_t = len(f2s) == 1 and in_region(f2s[0].x) and f2s[0].pos > last_ins
     chk.ob('C09-d', 'N-region', f.key, 'the transform reads exactly that region, after the inserts', ok_t,
-           f'_fft2({fmt(f2s[0].bound.get("x"))[:120]})' if f2s else '', f.loc())
+           f'_fft2({fmt(f2s[0].x)[:120]})' if f2s else '', f.loc())
     pads = pn.calls('util.pad')
-    f2n = pn.calls('propagate._fft2')
+    f2n = transforms(pn)
     ok_p = len(pads) == 1 and (pads[0].bound.get('array') in (nf.attr(WF, 'field'),) or _assembled_field(pn, pads[0].bound.get('array'))) \
-        and pads[0].bound.get('shape') == fft_shape and len(f2n) == 1 and f2n[0].bound.get('x') == pads[0].result
+        and pads[0].bound.get('shape') == fft_shape and len(f2n) == 1 and f2n[0].x == pads[0].result
     chk.ob('C09-f', 'N-embedding', f.key, 'without scratch: pad(wavefront.field, fft_shape) is transformed', ok_p, '', f.loc())
     from .common import Remap
     from .c20 import pad_rules
@@ -392,11 +414,18 @@ def run(chk, repo, tier):
     for p, label in ((ps, 'scratch'), (pn, 'no scratch')):
         em = p.calls('wavefront.Wavefront.empty')
         fl = [e for e in p.events if e.kind == 'call' and e.data.get('new') == 'field.Field']
-        f2 = p.calls('propagate._fft2')
+        f2 = transforms(p)
         ok = len(em) == 1 and em[0].bound.get('wavelength') == prop_wl and em[0].bound.get('pixelscale') == du_os and \
             em[0].bound.get('focal_length') == nf.attr(WF, 'focal_length') and \
             em[0].bound.get('shape') == Tup([shp.items[0] * osf, shp.items[1] * osf])
-        ok = ok and len(fl) == 1 and fl[0].bound.get('pixelscale') == du_os and len(f2) == 1 and fl[0].bound.get('data') == f2[0].result
+        def is_result(d_, t_):
+            if t_.result is not None and d_ == t_.result:
+                return True
+            da_ = d_.single_atom() if isinstance(d_, Poly) else None        # written in place: fftshift(fft2(ifftshift(x)))
+            return da_ is not None and is_app(da_, ('fft.fftshift', 'scipy.fft.fftshift')) and \
+                any(is_app(y_, ('fft.fft2', 'scipy.fft.fft2')) and y_[2] and nf.strip_apps(y_[2][0], ('fft.ifftshift', 'scipy.fft.ifftshift')) == t_.x
+                    for y_ in nf.value_atoms(d_))
+        ok = ok and len(fl) == 1 and fl[0].bound.get('pixelscale') == du_os and len(f2) == 1 and is_result(fl[0].bound.get('data'), f2[0])
         chk.ob('C09-g', 'D-flow', f.key, f'wavelength=prop_wavelength, sampling=du/oversample, focal length forwarded [{label}]',
                ok, '', f.loc())
     # shape=None: the whole period of the FFT grid is returned
